@@ -7,6 +7,7 @@ open LoomVerif
 
 #print axioms Notify.notify_effect
 #print axioms Notify.wakes_blocked_waiter_only
+#print axioms Notify.notify_acquires_nothing
 #print axioms Notify.wait_first_half
 #print axioms Notify.wait_second_half
 #print axioms NotifyKeep_spelled_out
